@@ -56,11 +56,12 @@ impl LspProject {
                     .collect());
             }
 
-            return Ok(result
+            let tokens: Vec<SemanticToken> = result
                 .0
                 .into_iter()
                 .filter_map(|tok| LspTokenType(tok).into())
-                .collect());
+                .collect();
+            return Ok(to_relative_positions(tokens));
         } else {
             error!("URL must be convertible to a file path {}", url);
         }
@@ -88,6 +89,31 @@ impl LspProject {
 
         vec![]
     }
+}
+
+/// Converts tokens having absolute positions (line and start character) into
+/// the relative encoding required by the language server protocol: the line
+/// is relative to the previous token and the start character is relative to
+/// the previous token when both are on the same line.
+fn to_relative_positions(tokens: Vec<SemanticToken>) -> Vec<SemanticToken> {
+    let mut prev_line = 0;
+    let mut prev_start = 0;
+    tokens
+        .into_iter()
+        .map(|mut tok| {
+            let line = tok.delta_line;
+            let start = tok.delta_start;
+            tok.delta_line = line - prev_line;
+            tok.delta_start = if line == prev_line {
+                start - prev_start
+            } else {
+                start
+            };
+            prev_line = line;
+            prev_start = start;
+            tok
+        })
+        .collect()
 }
 
 // Token types that this produces.
